@@ -14,28 +14,29 @@ Proof. vm_compute. reflexivity. Qed.
     string) over existing columns: executing the lazily built statement gives exactly the rows the
     property describes (and the engine reports their number) *)
 Definition C15_full : Prop :=
-  forall st cs rows k, call_wf st cs k = true ->
-    run gen_cfg st (phys st) cs rows k = inr (spec_rows cs k rows, spec_count cs k rows).
+  forall st name cs rows k, points_to name st = true -> call_wf st cs k = true ->
+    run gen_cfg st name cs rows k = inr (spec_rows cs k rows, spec_count cs k rows).
 
 (** the same statement on the decidable domain [call_ok gen_cfg] (on the repaired source it contains
     [call_wf]; it additionally admits predicates qualified by the table's own name) *)
 Theorem C15_partial :
-  forall st cs rows k, call_ok gen_cfg st cs k = true ->
-    run gen_cfg st (phys st) cs rows k = inr (spec_rows cs k rows, spec_count cs k rows).
-Proof. exact (fun st cs rows k => run_exact gen_cfg st cs rows k gen_cfg_ok). Qed.
+  forall st name cs rows k, points_to name st = true -> call_ok gen_cfg st cs k = true ->
+    run gen_cfg st name cs rows k = inr (spec_rows cs k rows, spec_count cs k rows).
+Proof. exact (fun st name cs rows k => run_exact gen_cfg st name cs rows k gen_cfg_ok). Qed.
 Print Assumptions C15_partial.
 
-Definition ex_st_pre : tstate := mkT "t1" "t39666281" "rf7f32a1c".
+Definition ex_st_pre : tstate := mkT "t1" "t39666281" "rf7f32a1c" [].
+Definition ex_name : tabref := mkRef "memory" "main" "main" "t1".
 
 (** histories: lazy expressions built and executed in any order, any number of times; building never
     changes the table nor reaches the connection *)
 Theorem C15_histories :
-  forall st cs h calls w,
+  forall st name cs h calls w, points_to name st = true ->
     hist_ok gen_cfg st cs h = true -> forallb (call_ok gen_cfg st cs) calls = true ->
     w_built w = map (compile gen_cfg st) calls ->
-    w_rows (run_hist gen_cfg st (phys st) cs w h) = spec_hist cs calls (w_rows w) h
-    /\ w_sent (run_hist gen_cfg st (phys st) cs w h) = (w_sent w + execs_in (List.length calls) h)%nat.
-Proof. exact (fun st cs => history_exact gen_cfg st cs gen_cfg_ok). Qed.
+    w_rows (run_hist gen_cfg st name cs w h) = spec_hist cs calls (w_rows w) h
+    /\ w_sent (run_hist gen_cfg st name cs w h) = (w_sent w + execs_in (List.length calls) h)%nat.
+Proof. exact (fun st name cs h calls w Hpt => history_exact gen_cfg st name cs gen_cfg_ok Hpt h calls w). Qed.
 Print Assumptions C15_histories.
 
 Theorem C15_lazy :
@@ -61,10 +62,31 @@ Theorem C15_full_if_patched :
   where_str_is_sql gen_cfg = true -> set_unqualified_raises gen_cfg = false -> set_strips_alias gen_cfg = true ->
   C15_full.
 Proof.
-  intros H1 H2 H3 st cs rows k Hwf.
-  exact (run_exact gen_cfg st cs rows k gen_cfg_ok (wf_is_ok_when_patched gen_cfg st cs k H1 H2 H3 Hwf)).
+  intros H1 H2 H3 st name cs rows k Hpt Hwf.
+  exact (run_exact gen_cfg st name cs rows k gen_cfg_ok Hpt (wf_is_ok_when_patched gen_cfg st cs k H1 H2 H3 Hwf)).
 Qed.
 Print Assumptions C15_full_if_patched.
+
+(** the whole database: the statement built from a table opened as [archive.t] / [cat.archive.t] changes exactly
+    that table; every other table -- in particular a table of the same name in the default schema -- keeps
+    its rows *)
+Theorem C15_other_tables_untouched :
+  forall st cat dflt cs d k a rows,
+    call_ok gen_cfg st cs k = true ->
+    resolve cat dflt (tref st) = Some a -> snd a = phys st -> db_get a d = Some rows ->
+    exists d', run_db gen_cfg st cat dflt cs d k = inr (d', spec_count cs k rows)
+      /\ db_get a d' = Some (spec_rows cs k rows)
+      /\ forall b, b <> a -> db_get b d' = db_get b d.
+Proof. exact (fun st cat dflt cs d k a rows => db_exact gen_cfg st cat dflt cs d k a rows gen_cfg_ok). Qed.
+Print Assumptions C15_other_tables_untouched.
+
+Definition ex_st_arch : tstate := mkT "accounts" "t11111111" "rb" ["archive"].
+Definition ex_db : db := [(("main", "accounts"), [[VInt 1; VInt 2; VStr "x"]]); (("archive", "accounts"), [[VInt 1; VInt 2; VStr "x"]; [VNull; VInt 3; VStr "y"]])].
+Example C15_qualified_target_example :
+  run_db gen_cfg ex_st_arch "memory" "main" ["a"; "b"; "s"] ex_db (CUpdate [(QCol None "a", QLit (VInt 0))] WNone)
+  = inr ([(("main", "accounts"), [[VInt 1; VInt 2; VStr "x"]]);
+          (("archive", "accounts"), [[VInt 0; VInt 2; VStr "x"]; [VInt 0; VInt 3; VStr "y"]])], 2%nat).
+Proof. vm_compute. reflexivity. Qed.
 
 (** the repaired source (fix commits 4248493, 1da5c96, 9e45c12) has the three facts: the full property is
     proved.  Reverting any of the three fixes makes this instantiation fail. *)
@@ -87,15 +109,15 @@ Definition ex_delete : call :=
 
 Example C15_domain_nonempty :
   call_ok gen_cfg ex_st ex_cs ex_swap = true /\ call_ok gen_cfg ex_st ex_cs ex_delete = true
-  /\ run gen_cfg ex_st "t1" ex_cs ex_rows ex_swap
+  /\ run gen_cfg ex_st ex_name ex_cs ex_rows ex_swap
      = inr ([[VInt 2; VInt 3; VStr "x"]; [VNull; VInt 3; VStr "x"]; [VInt 2; VInt 3; VStr "x"]; [VInt 2; VNull; VNull]], 2%nat)
-  /\ run gen_cfg ex_st "t1" ex_cs ex_rows ex_delete
+  /\ run gen_cfg ex_st ex_name ex_cs ex_rows ex_delete
      = inr ([[VInt 1; VInt 2; VStr "x"]; [VInt 1; VInt 2; VStr "x"]], 2%nat).
 Proof. vm_compute. repeat split; reflexivity. Qed.
 
 Example C15_history_nonempty :
   hist_ok gen_cfg ex_st ex_cs [ABuild ex_swap; ABuild ex_delete; AExec 1; AExec 0; AExec 0] = true
-  /\ w_rows (run_hist gen_cfg ex_st "t1" ex_cs (mkW ex_rows 0 []) [ABuild ex_swap; ABuild ex_delete; AExec 1; AExec 0; AExec 0])
+  /\ w_rows (run_hist gen_cfg ex_st ex_name ex_cs (mkW ex_rows 0 []) [ABuild ex_swap; ABuild ex_delete; AExec 1; AExec 0; AExec 0])
      = [[VInt 3; VInt 5; VStr "x"]; [VInt 3; VInt 5; VStr "x"]].
 Proof. vm_compute. split; reflexivity. Qed.
 
@@ -107,10 +129,10 @@ Proof. vm_compute. split; reflexivity. Qed.
 Definition rf_sql : call := CDelete (WStr "a is null" (QIsNull (QCol None "a"))).
 Theorem C15_refuted_sql_string :
   where_str_is_sql gen_cfg = false ->
-  exists st cs rows k, call_wf st cs k = true
-    /\ run gen_cfg st (phys st) cs rows k <> inr (spec_rows cs k rows, spec_count cs k rows).
+  exists st name cs rows k, points_to name st = true /\ call_wf st cs k = true
+    /\ run gen_cfg st name cs rows k <> inr (spec_rows cs k rows, spec_count cs k rows).
 Proof.
-  intro H. exists ex_st, ex_cs, ex_rows, rf_sql. split; [reflexivity|].
+  intro H. exists ex_st, ex_name, ex_cs, ex_rows, rf_sql. split; [reflexivity|]. split; [reflexivity|].
   unfold run, rf_sql, compile, compile_where, compile_items, where_items. rewrite H. vm_compute. discriminate.
 Qed.
 Print Assumptions C15_refuted_sql_string.
@@ -118,7 +140,7 @@ Print Assumptions C15_refuted_sql_string.
 (** on the repaired source the same call does what the property says *)
 Example C15_sql_string_now_holds :
   call_wf ex_st ex_cs rf_sql = true
-  /\ run gen_cfg ex_st "t1" ex_cs ex_rows rf_sql
+  /\ run gen_cfg ex_st ex_name ex_cs ex_rows rf_sql
      = inr ([[VInt 1; VInt 2; VStr "x"]; [VInt 1; VInt 2; VStr "x"]; [VInt 2; VNull; VNull]], 1%nat).
 Proof. vm_compute. split; reflexivity. Qed.
 
@@ -126,10 +148,10 @@ Proof. vm_compute. split; reflexivity. Qed.
 Definition rf_unq : call := CUpdate [(QCol None "a", QCol None "b")] WNone.
 Theorem C15_refuted_unqualified_value :
   set_unqualified_raises gen_cfg = true ->
-  exists st cs rows k, call_wf st cs k = true
-    /\ run gen_cfg st (phys st) cs rows k <> inr (spec_rows cs k rows, spec_count cs k rows).
+  exists st name cs rows k, points_to name st = true /\ call_wf st cs k = true
+    /\ run gen_cfg st name cs rows k <> inr (spec_rows cs k rows, spec_count cs k rows).
 Proof.
-  intro H. exists ex_st, ex_cs, ex_rows, rf_unq. split; [reflexivity|].
+  intro H. exists ex_st, ex_name, ex_cs, ex_rows, rf_unq. split; [reflexivity|]. split; [reflexivity|].
   unfold run, rf_unq, compile, compile_set, compile_set_from, compile_set1, set_bad_q.
   destruct (negb (ensure_cte_update gen_cfg)); [discriminate|].
   destruct (compile_where gen_cfg ex_st WNone); [discriminate|].
@@ -139,7 +161,7 @@ Print Assumptions C15_refuted_unqualified_value.
 
 Example C15_unqualified_value_now_holds :
   call_wf ex_st ex_cs rf_unq = true
-  /\ run gen_cfg ex_st "t1" ex_cs ex_rows rf_unq
+  /\ run gen_cfg ex_st ex_name ex_cs ex_rows rf_unq
      = inr ([[VInt 2; VInt 2; VStr "x"]; [VInt 3; VInt 3; VStr "x"]; [VInt 2; VInt 2; VStr "x"]; [VNull; VNull; VNull]], 4%nat).
 Proof. vm_compute. split; reflexivity. Qed.
 
@@ -148,10 +170,10 @@ Definition rf_alias : call :=
   CUpdate [(QCol None "a", QAlias (QCoalesce (QCol (Some "rf7f32a1c") "a") (QLit (VInt 0))) "coalesce__a__")] WNone.
 Theorem C15_refuted_aliased_value :
   set_strips_alias gen_cfg = false ->
-  exists st cs rows k, call_wf st cs k = true
-    /\ run gen_cfg st (phys st) cs rows k <> inr (spec_rows cs k rows, spec_count cs k rows).
+  exists st name cs rows k, points_to name st = true /\ call_wf st cs k = true
+    /\ run gen_cfg st name cs rows k <> inr (spec_rows cs k rows, spec_count cs k rows).
 Proof.
-  intro H. exists ex_st, ex_cs, ex_rows, rf_alias. split; [reflexivity|].
+  intro H. exists ex_st, ex_name, ex_cs, ex_rows, rf_alias. split; [reflexivity|]. split; [reflexivity|].
   unfold run, rf_alias, compile, compile_set, compile_set_from, compile_set1.
   destruct (negb (ensure_cte_update gen_cfg)); [discriminate|].
   destruct (compile_where gen_cfg ex_st WNone) as [e|p]; [discriminate|].
@@ -164,6 +186,6 @@ Print Assumptions C15_refuted_aliased_value.
 
 Example C15_aliased_value_now_holds :
   call_wf ex_st ex_cs rf_alias = true
-  /\ run gen_cfg ex_st "t1" ex_cs ex_rows rf_alias
+  /\ run gen_cfg ex_st ex_name ex_cs ex_rows rf_alias
      = inr ([[VInt 1; VInt 2; VStr "x"]; [VInt 0; VInt 3; VStr "x"]; [VInt 1; VInt 2; VStr "x"]; [VInt 2; VNull; VNull]], 4%nat).
 Proof. vm_compute. split; reflexivity. Qed.
